@@ -303,7 +303,7 @@ fn scan_step_d(d: [u8; N], s0: usize, s1: usize, kind: u8, skip: bool, pipe: boo
     kani::cover!(d[70] == 0x5A && d[s0 + 70] == 0xA5, "arbitrary payload bytes");
 }
 
-//@ harness: c03_step_nofilter_load props=C03 also=C07,C08 tier=quick class=functional covers=1 mem=14 timeout=1500 est=200 args=-Z,restrict-vtable
+//@ harness: c03_step_nofilter_load props=C03,C08 also=C07 tier=quick class=functional covers=1 mem=14 timeout=1500 est=200 args=-Z,restrict-vtable
 //@ bounds: ONE load_cdp from an arbitrary input position 0 < P < 2^40: packet of 74 bytes (all header bytes but sizes/ids and all 10 payload bytes symbolic), no filter, payload loaded, file-like reader: offset = P, header/payload truthful, tracker and reader end at P+74 (inductive step => chains of any length)
 S!(c03_step_nofilter_load, 2, scan_step(74, 80, 0, false, false, true, false, false, false));
 //@ harness: c03_step_nofilter_skip_pipe props=C03 also=C07 tier=quick class=functional covers=1 mem=14 timeout=1500 est=200 args=-Z,restrict-vtable
@@ -345,10 +345,10 @@ S!(c14_step_stats_filter, 2, scan_step(74, 80, 1, true, false, false, true, true
 //@ bounds: mid-stream call (P > 0), no filter: no initial statistics again; counters equal ground truth
 S!(c14_step_stats_mid, 2, scan_step(74, 80, 0, false, false, true, false, true, false));
 
-//@ harness: c03_scan2_nofilter_load props=C03 also=C07,C08,C14 tier=thorough required=no class=functional covers=1 mem=28 timeout=1200 est=120 args=-Z,restrict-vtable
+//@ harness: c03_scan2_nofilter_load props=C03 also=C07,C08,C14 tier=thorough required=no class=functional covers=1 mem=28 timeout=900 est=120 args=-Z,restrict-vtable
 //@ bounds: all contents of the well-framed 2-packet stream with sizes (74, 80) (payloads 10 and 16 bytes; link/FEE ids of the two packets fixed, all other 122 header bytes and all payload bytes symbolic), no filter, payloads loaded, file-like reader
 S!(c03_scan2_nofilter_load, 2, scan2(74, 80, 0, false, false, true, false, false));
-//@ harness: c03_scan2_link_second props=C03 also=C07,C08,C14 tier=thorough required=no class=functional covers=1 mem=28 timeout=1200 est=150 args=-Z,restrict-vtable
+//@ harness: c03_scan2_link_second props=C03 also=C07,C08,C14 tier=thorough required=no class=functional covers=1 mem=28 timeout=900 est=150 args=-Z,restrict-vtable
 //@ bounds: sizes (74, 80), link filter selecting only the SECOND packet (first skipped by the filter loop), payloads loaded, file-like reader: delivered offset must be the second packet's
 S!(c03_scan2_link_second, 2, scan2(74, 80, 1, false, false, false, true, false));
 
